@@ -3,11 +3,11 @@ from props_common import COMMON_TRUSTED
 CONFIG = {
     "areas": ["fedreq"],
     "lean": ["VProps.C13"],
-    "sources": ["VProps/C13.lean", "VProofs/FedReq.lean", "VModel/FedReq.lean"],
+    "sources": ["VProps/C13.lean", "VProofs/FedReq.lean", "VModel/FedReq.lean", "VProofs/JsonUtf8.lean", "VProps/C01.lean"],
     "theorems": [
         "V.C13.gen_fields", "V.C13.gen_header_format", "V.C13.gen_safe_ranges",
         "V.C13.header_roundtrip", "V.C13.accepted_facts", "V.C13.refused_if", "V.C13.refused_if_key_invalid",
-        "V.C13.binding", "V.C13.signed_request_accepted",
+        "V.C13.binding", "V.C13.signed_request_accepted", "V.C13.canonical_body_facts", "V.C13.signed_request_accepted_canon",
     ],
     "rule": "verify: NewFederationRequest -> SetContent -> Sign (real ed25519, 4 keys) -> HTTPRequest -> VerifyHTTPRequest in-process against a "
             "real KeyRing over a key-table database: methods (12 + 6 odd) x origins / destinations (13 valid incl. ports, IPv6 literals; 18 odd) x "
@@ -32,8 +32,14 @@ CONFIG = {
     "assumptions": [
         "IdealSig (correctness; every signature that checks is an honest signature over an object equal up to member order) is a hypothesis "
         "of binding and signed_request_accepted, never an axiom; satisfiability shown by a toy scheme",
-        "signed_request_accepted takes C01's facts about canonical JSON (output is valid UTF-8 and re-parses to a value equal up to member "
-        "order) as the explicit hypothesis hcanon; vacuous for requests without a body",
+        "signed_request_accepted no longer assumes C01's facts about canonical JSON: canonical_body_facts derives them (the body Sign "
+        "stores is encodeCanon of the parsed body, valid UTF-8, re-parses to that value with members sorted and -0 as 0, same canonical "
+        "bytes) from V.C01.canonical_eq_spec_general / parse_encodeCanon / encodeCanon_sorted and VProofs.JsonUtf8.canonical_utf8. "
+        "Residue, explicit and shown satisfiable (BodyOk): the body is valid UTF-8 (otherwise the request is refused, refused_if (6)), "
+        "has no lone surrogate escape (CompactJSON drops it, the model's value reads U+FFFD: outside the model, skipped in the driver) and "
+        "no duplicate key (canonical order of equal keys unspecified, outside C01). Under IdealSig (correctness only up to member order) "
+        "one more: no number of the body is the literal -0 (canonical JSON writes 0); signed_request_accepted_canon removes it under "
+        "CanonCorrect (a signature checks against every object with the same canonical bytes: what ed25519 over CanonicalJSON does)",
         "'malformed X-Matrix header' is read as the code reads it: no non-empty origin, key and sig can be extracted (400), or no X-Matrix "
         "header at all (401). Syntactic leniency of ParseAuthorization (unbalanced or doubled quotes, blanks and tabs around names and "
         "values, parameters without '=', repeated parameters where the last wins, unknown parameters) is accepted by the code when the "
